@@ -22,7 +22,7 @@ META = {
 SANITY_TARGET = "codemodder.codemods.base_visitor.match_line"
 TARGETS = ["codemodder.codemods.base_visitor.match_line"]
 
-BOUND = ("include/exclude lists of <= 3 entries drawn from ids, unknown ids and '*' patterns (prefix/infix/suffix/overlapping, with regex "
+BOUND = ("include/exclude lists of <= 3 entries drawn from ids, unknown ids and '*' patterns (prefix/infix/suffix/overlapping, pieces that overlap inside an id, regex "
          "metacharacters) over a synthetic registry of 6 codemods and the real registry; both eligibility modes")
 
 
@@ -78,7 +78,9 @@ def run_match(tier, seed):
              _Fake("pixee", "order-imports"), _Fake("semgrep", "django-secure-set-cookie"), _Fake("pixee", "secure-tempfile")]
     reg = _registry(fakes)
     pool = [f.id for f in fakes[:4]] + ["pixee:python/nope", "pixee:python/secure*", "*django*", "*django", "sonar:*", "pixee.python/secure*",
-                                         "*", "(*", "*secure-random", "pixee:python/*-on"]
+                                         "*", "(*", "*secure-random", "pixee:python/*-on",
+                                         # literal pieces that could overlap inside an id (head/tail sharing a character, repeated pieces)
+                                         "pixee:python/secure-*-random", "*random*random", "pixee:python/secure-random*random", "*on*on"]
     lists = [[]] + [[a] for a in pool] + [list(p) for p in itertools.permutations(pool, 2)]
     if tier == "thorough":
         import random
